@@ -363,6 +363,23 @@ def c16_cases(tier, seed):
     rng = _random.Random(seed + 16)
     out = []
     pool = _pool(tier, seed, ["deps", "placeflat"], 40, 400, dict(), 80, 800) + _with_subtask(tier, seed, 20)
+    # numeric edge values: 0 / 0.0 / -1 for every numeric constructor parameter of the model
+    for cfg in _rand(tier, seed + 5, 40, 400, "E"):
+        cfg = json.loads(json.dumps(cfg))
+        for c in cfg["comps"][:1]:
+            c["space"] = 0
+        for t in cfg["tasks"][:2]:
+            t["due"] = rng.choice([0, -1])
+        if cfg["tasks"]:
+            cfg["tasks"][-1]["work"] = 0
+            cfg["tasks"][-1]["prog"] = 0
+        for w in cfg["workers"][:1]:
+            w["cost"] = 0
+        for f in cfg["facs"][:1]:
+            f["cost"] = 0
+        for w in cfg["wps"][-1:]:
+            w["cap"] = rng.choice([0, w["cap"]])
+        pool.append(cfg)
     for cfg in pool:
         k = rng.randint(0, 5)
         simple = _saved_format_only(cfg)
